@@ -9,7 +9,7 @@ Import ListNotations.
 Theorem C03_io_exact :
   forall p r m inputs outputs, build_checked p r = inl m ->
   all_vars (r_inputs r) = Some inputs -> all_vars (r_outputs r) = Some outputs ->
-  let p' := with_main p (Some (main_args inputs)) outputs in
+  let p' := final_prog p r inputs outputs in
   let want := if r_drop r then filter (fun kv => mem var_eqb (snd kv) (depends_on p' 0)) inputs else inputs in
   let ty kv := match vty p' (snd kv) with Some t => tshow t | None => "?"%string end in
   match mmain m with MGraph gi _ go_ =>
